@@ -634,6 +634,96 @@ def _replace_side_strict(g, cmp):
     return None
 
 
+def rule_frag_flags(chk, prog):
+    """K13-fragflags: a tail end that must not be compressed makes the fragment block it goes into uncompressed: where the
+    block processor ORs masked flags into a block's flags, the masked flags are those of *another* block (the tail end
+    that is being added).  `blk->flags |= blk->flags & MASK` takes nothing over."""
+    n = good = 0
+    for f in prog.functions():
+        if f.decl or not f.unit.src.startswith("lib/sqfs/src/block_processor/"):
+            continue
+        for st in f.build().insts():
+            if st.op != "store":
+                continue
+            q = strip_casts(st.ops[1])
+            if not (q.is_inst and q.op == "getelementptr" and q.field() and "sqfs_block_t" in q.field()[0] and q.field()[1] == "flags"):
+                continue
+            v = strip_casts(st.ops[0])
+            if not (v.is_inst and v.op == "or"):
+                continue
+            masked = [o for o in v.ops if strip_casts(o).is_inst and strip_casts(o).op == "and" and
+                      any(c.is_const and c.is_int for c in strip_casts(o).ops)]
+            if not masked:
+                continue
+            m = strip_casts(masked[0])
+            src = [o for o in m.ops if not o.is_const]
+            if not src:
+                continue
+            ld = strip_casts(src[0])
+            if not (ld.is_inst and ld.op == "load"):
+                continue
+            sq = strip_casts(ld.ops[0])
+            if not (sq.is_inst and sq.op == "getelementptr" and sq.field() and sq.field()[1] == "flags"):
+                continue
+            n += 1
+            chk.analysed(f)
+            tgt_base = strip_casts(resolve_ptr(prog, q, f.unit)[0])
+            src_base = strip_casts(resolve_ptr(prog, sq, f.unit)[0])
+            inst = "%s:flags|=@%d" % (f.name, st.line)
+            same = tgt_base is src_base or (tgt_base.is_inst and src_base.is_inst and tgt_base.op == "load" and src_base.op == "load" and
+                                            strip_casts(tgt_base.ops[0]) is strip_casts(src_base.ops[0]))
+            if same:
+                chk.violation("K13-fragflags", inst, st, "the flags that are masked and ORed into the block's flags are the block's own: "
+                              "nothing is taken over from the tail end that is added, a dont_compress file's tail ends up in a "
+                              "compressed fragment block")
+            else:
+                good += 1
+                chk.ok("K13-fragflags", inst, st, "masked flags of the block that is added are ORed into the receiving block's flags")
+    if good == 0 and n == 0:
+        chk.broke("K13-fragflags: no block takes masked flags over from another one in the block processor")
+    return n
+
+
+def rule_sort_key(chk, prog):
+    """K14-sortkey: files are ordered by priority, ties stay in the default order -- the order depends on nothing else.  In
+    the functions of the sort-file module that relink the file list (stores to next_by_type), no branch looks at any
+    other member of a node (its flags, its name, its mode): a list that is split by 'was matched by a line' and glued
+    together again puts equal priorities in an order that depends on which files the sort file mentions."""
+    n = 0
+    ALLOWED = {"priority", "next_by_type", "files", "data", "file"}
+    for f in prog.functions():
+        if f.decl or not f.unit.src.endswith("bin/gensquashfs/src/sort_by_file.c"):
+            continue
+        f.build()
+        relinks = [i for i in f.insts() if i.op == "store" and strip_casts(i.ops[1]).is_inst and
+                   strip_casts(i.ops[1]).op == "getelementptr" and strip_casts(i.ops[1]).fields() and
+                   strip_casts(i.ops[1]).fields()[-1][1] == "next_by_type"]
+        if not relinks:
+            continue
+        n += 1
+        chk.analysed(f)
+        bad = None
+        for b in f.blocks:
+            t = b.term
+            if not (t.op == "br" and len(t.x["succ"]) == 2):
+                continue
+            for x in [t.ops[0]] + list(backward_slice(t.ops[0], phi_control=False, limit=60)):
+                if x.is_inst and x.op == "load":
+                    q = strip_casts(x.ops[0])
+                    if q.is_inst and q.op == "getelementptr" and q.fields():
+                        for (sn, fn_) in q.fields():
+                            if "tree_node_t" in sn and fn_ not in ALLOWED:
+                                bad = (t, fn_)
+        inst = "%s:order" % f.name
+        if bad is None:
+            chk.ok("K14-sortkey", inst, relinks[0], "the list is relinked on comparisons of priorities (and list ends) only")
+        else:
+            chk.violation("K14-sortkey", inst, bad[0], "a function that reorders the file list branches on the member '%s' of a node: "
+                          "the final order depends on more than priority and default order (files with equal priority change "
+                          "places depending on it)" % bad[1])
+    return n
+
+
 def rule_stable_sort(chk, prog):
     """ascending priority, ties in default order: the comparison is on the full-width priorities; a selection sort replaces
     the minimum only on strictly smaller; comparator functions are evaluated exhaustively"""
@@ -766,6 +856,10 @@ def run(chk):
     rule_order(chk, prog)
     rule_stable_sort(chk, prog)
     rule_export(chk, prog)
+    rule_frag_flags(chk, prog)
+    chk.floor("K13-fragflags", 1)
+    rule_sort_key(chk, prog)
+    chk.floor("K14-sortkey", 1)
     # "none of these changes the contents read back": whatever a per-file flag does in the block writer, every block
     # that is written stays on its record (the truncation after a duplicate run knows nothing else) -- K11-logged of C08
     from .c08 import rule_j_logged, rule_g_truncate
